@@ -193,7 +193,7 @@ StepBadCreate ==
      IN /\ pre' = obs /\ h' = h
         /\ viol' = viol \cup StateClauses(obs, h)
               \cup (IF st4 THEN {} ELSE {V("C12", "malformed_create_rejected", [kind |-> Ev.args.kind, status |-> Ev.result.status])})
-              \cup (IF st4 /\ obs # pre THEN {V("C12", "rejection_no_effect", [kind |-> Ev.args.kind, what |-> "create"])} ELSE {})
+              \cup (IF st4 /\ (obs # pre \/ Ev.filechg # <<>>) THEN {V("C12", "rejection_no_effect", [kind |-> Ev.args.kind, what |-> "create"])} ELSE {})
         /\ div' = div
   /\ UNCHANGED meta
 
@@ -220,6 +220,8 @@ StepUpdate ==
               \cup (IF ~known /\ obs # pre
                       THEN {V("C12", "rejection_no_effect", [status |-> resp.status, acct |-> obs.acct # pre.acct,
                                                             stale |-> a.ref \in DOMAIN h.sess])} ELSE {})
+              \cup (IF ~known /\ Ev.filechg # <<>>      \* (the subscriber's CDR file is part of "no record change")
+                      THEN {V("C12", "rejection_no_effect", [status |-> resp.status, acct |-> FALSE, stale |-> a.ref \in DOMAIN h.sess, file |-> TRUE])} ELSE {})
               \cup (IF known /\ ok /\ UKnown(u) /\ ~Oversize(u) /\ ~FileHoldsAll(u)
                       THEN {V("C02", "file_matches_records", [after |-> "update", split |-> grew])} ELSE {})
               \cup (IF known /\ partial /\ ~(u \in DOMAIN obs.ue /\ \E i \in 1..Len(obs.ue[u].recs) :
@@ -249,6 +251,8 @@ StepRelease ==
               \cup (IF ~known /\ obs # pre
                       THEN {V("C12", "rejection_no_effect", [status |-> resp.status, acct |-> obs.acct # pre.acct,
                                                             stale |-> a.ref \in DOMAIN h.sess])} ELSE {})
+              \cup (IF ~known /\ Ev.filechg # <<>>
+                      THEN {V("C12", "rejection_no_effect", [status |-> resp.status, acct |-> FALSE, stale |-> a.ref \in DOMAIN h.sess, file |-> TRUE])} ELSE {})
               \cup (IF known /\ resp.status = 204 /\ UKnown(u) /\ ~Oversize(u) /\ ~FileHoldsReleased(u, a.ref)
                       THEN {V("C02", "file_matches_records", [after |-> "release", split |-> grew])} ELSE {})
               \cup (IF acted /\ ~(u \in DOMAIN obs.ue /\
